@@ -393,6 +393,10 @@ def view_ops_for(n, mutable):
     for a in range(n + 2):
         for b in range(n + 2):
             ops.append((f"range:{a}:{b}", b - a if a <= b <= n else None))
+    # the Option-returning accessor with a range (empty ranges at and past the end, reversed ones): `None` ends the walk
+    for a in range(n + 3):
+        for b in sorted({a, max(a - 1, 0), n, n + 1}):
+            ops.append((f"getr:{a}:{b}", b - a if a <= b <= n else None))
     # inclusive sub-ranges, reversed ones (a > b + 1) included: std accepts `a..=b` iff a <= b + 1 <= n
     for a in range(n + 2):
         for b in sorted({0, max(n - 1, 0), n}):
